@@ -77,8 +77,15 @@ class _Ctx:
 
 class CFG:
     def __init__(self, scope: Scope, program: Program, raise_model: 'RaiseModel', inline_methods: bool = False,
-                 inline_nested: bool = True, no_inline: Tuple[str, ...] = ()):
+                 inline_nested: bool = True, no_inline: Tuple[str, ...] = (), expand_deferred: bool = False,
+                 inline_module_helpers: bool = False):
+        self.inline_module_helpers = inline_module_helpers   # also plain private module-level functions
         self.no_inline = tuple(no_inline)       # qualnames of helpers that stay opaque call nodes
+        # expand_deferred: the function handed to `pool.submit(f, *a)` / `loop.run_in_executor(pool, f, *a)` is
+        # expanded in place (as if called) so that rules about *what the worker does* see its body in the
+        # context of the submitting function; nodes of the expansion carry meta['deferred']
+        self.expand_deferred = expand_deferred
+        self._deferred = 0
         self.inline_methods = inline_methods
         self.inline_nested = inline_nested
         self.scope = scope
@@ -98,6 +105,7 @@ class CFG:
         self.cur_scope: Scope = scope          # scope whose body is currently being built (changes while inlining)
         self.callee_cache: Dict[int, dict] = {}
         self._stack_sites: Dict[int, str] = {}
+        self._cm_stack: List[dict] = []
         self.inline_values: Dict[int, Tuple[ast.expr, Dict[str, ast.expr]]] = {}
         fn = scope.node
         self.entry = self._raw_node('entry', fn, getattr(fn, 'lineno', 0))
@@ -149,6 +157,8 @@ class CFG:
         if self._inlining:
             n.meta['inlined'] = len(self._inlining)
             n.meta['inlined_from'] = self._inlining[-1]
+        if self._deferred:
+            n.meta['deferred'] = True
         for src, label in self.cur:
             self._edge(src, n, label)
         self.cur = [(n, 'seq')]
@@ -245,6 +255,19 @@ class CFG:
     def _s_Expr(self, s: ast.Expr) -> None:
         if isinstance(s.value, ast.Constant):
             return  # docstring / ellipsis
+        if self._cm_stack and isinstance(s.value, ast.Yield) and self._cm_stack[-1]['yield'] is s.value:
+            # the single `yield` of a @contextmanager helper expanded at a `with`: the block runs here
+            fr = self._cm_stack.pop()
+            saved = (self.res, self.cur_scope, self._inlining)
+            self.res, self.cur_scope, self._inlining = fr['res'], fr['scope'], fr['inlining']
+            try:
+                if fr['as'] is not None:
+                    self._store(fr['as'], s.value.value if s.value.value is not None else ast.copy_location(ast.Constant(value=None), s), fr['stmt'])
+                fr['build_body']()
+            finally:
+                self.res, self.cur_scope, self._inlining = saved
+                self._cm_stack.append(fr)
+            return
         before = len(self.nodes)
         self._expr(s.value)
         if len(self.nodes) == before:
@@ -291,6 +314,18 @@ class CFG:
 
     def _s_AnnAssign(self, s: ast.AnnAssign) -> None:
         if s.value is not None:
+            v = s.value
+            call = v.value if isinstance(v, ast.Await) and isinstance(v.value, ast.Call) else v
+            if isinstance(call, ast.Call):
+                target = self._inline_target(call, awaited=isinstance(v, ast.Await))
+                if target is not None:
+                    self._expr(call.func)
+                    for a in call.args:
+                        self._expr(a)
+                    for k in call.keywords:
+                        self._expr(k.value)
+                    self._inline(call, *target, assign_targets=[s.target], assign_stmt=s)
+                    return
             self._expr(s.value)
             self._store(s.target, s.value, s)
 
@@ -489,6 +524,33 @@ class CFG:
             ps._parent = h  # type: ignore[attr-defined]
             t._synth_suppress = True  # type: ignore[attr-defined]
             self._s_Try(t)
+            return
+        cm = self._cm_target(ce) if not is_async else None
+        if cm is not None:
+            t, binding, the_yield = cm
+            for a_ in ce.args:
+                self._expr(a_)
+            for k_ in ce.keywords:
+                self._expr(k_.value)
+            self._node('inline_enter', ce, name=t.qualname, awaited=False, await_ast=None, contextmanager=True)
+            rest = items[1:]
+            frame = {'yield': the_yield, 'as': item.optional_vars, 'stmt': s, 'res': self.res, 'scope': self.cur_scope,
+                     'inlining': list(self._inlining),
+                     'build_body': (lambda: self._with_items(rest, s, is_async))}
+            saved_res, saved_scope = self.res, self.cur_scope
+            self._inlining.append(t.qualname)
+            for prm, arg in binding:
+                self._node('store_name', arg, ce.lineno, name=prm, value=arg, stmt=ce, inlined_param=True)
+            self.res, self.cur_scope = Resolver(t), t
+            self._cm_stack.append(frame)
+            try:
+                self._build_body(t.node.body)
+            finally:
+                self._cm_stack.pop()
+                self.res, self.cur_scope = saved_res, saved_scope
+                self._inlining.pop()
+            if self.cur:
+                self._node('inline_exit', ce, name=t.qualname)
             return
         self._expr(item.context_expr)
         self._node('with_enter', item.context_expr, s.lineno, item=item, is_async=is_async, stmt=s)
@@ -721,12 +783,119 @@ class CFG:
                 ast.copy_location(synth, e)
                 self._node('call', synth, synthetic_for=e)
                 return
+            if isinstance(bound, ast.Name) and e.args and not e.keywords:
+                # operator.methodcaller('m', *a) bound to a local of the caller: run(obj) is obj.m(*a)
+                from .match import closure_value
+                host = getattr(ic, 'caller_scope', None)
+                v = closure_value(host, bound.id) if host is not None else None
+                if isinstance(v, ast.Call) and Resolver(host).path(v.func) == 'operator.methodcaller' and v.args \
+                        and isinstance(v.args[0], ast.Constant) and isinstance(v.args[0].value, str) and not v.keywords:
+                    fn_ = ast.Attribute(value=e.args[0], attr=v.args[0].value, ctx=ast.Load())
+                    synth = ast.Call(func=fn_, args=list(v.args[1:]) + list(e.args[1:]), keywords=[])
+                    for y in ast.walk(synth):
+                        if not hasattr(y, 'lineno'):
+                            ast.copy_location(y, e)
+                    ast.copy_location(synth, e)
+                    synth._parent = getattr(e, '_parent', None)  # type: ignore[attr-defined]
+                    self._node('call', synth, synthetic_for=e, methodcaller_args=list(v.args[1:]), methodcaller_scope=host)
+                    return
         self._node('call', e)
+        if self.expand_deferred and isinstance(e.func, ast.Attribute) and not e.keywords \
+                and not any(isinstance(a, ast.Starred) for a in e.args):
+            fa = None
+            if e.func.attr == 'run_in_executor' and len(e.args) >= 2:
+                fa = e.args[1:]
+            elif e.func.attr == 'submit' and len(e.args) >= 1:
+                fa = e.args
+            if fa is not None:
+                synth = ast.Call(func=fa[0], args=list(fa[1:]), keywords=[])
+                ast.copy_location(synth, e)
+                synth._parent = getattr(e, '_parent', None)  # type: ignore[attr-defined]
+                target = self._inline_target(synth, awaited=False, any_module_helper=True)
+                if target is not None:
+                    # (the expansion is sequential: the graph answers "what does the worker do, with which values",
+                    # not how the two threads interleave)
+                    self._deferred += 1
+                    try:
+                        self._inline(synth, *target)
+                    finally:
+                        self._deferred -= 1
         flag = self._stack_sites.get(id(e))
         if flag is not None:
             tc = ast.copy_location(ast.Constant(value=True), e)
             self._node('store_name', ast.copy_location(ast.Name(id=flag, ctx=ast.Store()), e), e.lineno,
                        name=flag, value=tc, stmt=e, synthetic=True)
+
+    def _cm_target(self, ce: ast.AST):
+        """`with helper(args):` where helper is a private/nested generator function decorated with
+        contextlib.contextmanager, has exactly one `yield` (an expression statement, outside any loop) and no
+        `return`: (scope, parameter binding, the yield node); else None."""
+        if not isinstance(ce, ast.Call) or not isinstance(ce.func, (ast.Name, ast.Attribute)):
+            return None
+        if any(isinstance(a, ast.Starred) for a in ce.args) or any(k.arg is None for k in ce.keywords):
+            return None
+        t: Optional[Scope] = None
+        skip_self = False
+        f = ce.func
+        if isinstance(f, ast.Name):
+            bs = self.cur_scope.binding_scope(f.id)
+            if bs is None:
+                return None
+            cands = [c for c in bs.children if c.kind == 'function' and c.name == f.id]
+            if len(cands) != 1 or _has_nondef_binding(bs, f.id):
+                return None
+            t = cands[0]
+            if bs.kind == 'module' and not f.id.startswith('_'):
+                return None
+        elif isinstance(f.value, ast.Name) and f.value.id == 'self' and f.attr.startswith('_') and not f.attr.startswith('__'):
+            sc: Optional[Scope] = self.cur_scope
+            cls = None
+            while sc is not None:
+                if sc.kind == 'class':
+                    cls = sc
+                    break
+                sc = sc.parent
+            if cls is None:
+                return None
+            t = find_method(self.program, cls, f.attr)
+            skip_self = True
+            if t is not None:
+                for sub in subclasses(self.program, cls):
+                    if sub.unit.scopes.get(f'{sub.qualname}.{f.attr}') is not None:
+                        return None
+        if t is None or t.is_async or t.qualname in self._inlining or len(self._inlining) >= 4:
+            return None
+        decs = [Resolver(t.parent or t).path(d) or dotted(d) or '' for d in t.decorators]
+        if len(decs) != 1 or not decs[0].endswith('contextmanager'):
+            return None
+        ys = [x for x in own_nodes(t.node) if isinstance(x, (ast.Yield, ast.YieldFrom))]
+        if len(ys) != 1 or not isinstance(ys[0], ast.Yield) or not isinstance(parent(ys[0]), ast.Expr):
+            return None
+        if any(isinstance(x, ast.Return) for x in own_nodes(t.node)):
+            return None
+        for a_ in ancestors(ys[0]):
+            if a_ is t.node:
+                break
+            if isinstance(a_, (ast.For, ast.While, ast.AsyncFor)):
+                return None
+        a = t.node.args
+        if a.vararg or a.kwarg or a.posonlyargs or a.kwonlyargs:
+            return None
+        params = [x.arg for x in a.args][1 if skip_self else 0:]
+        if len(ce.args) > len(params):
+            return None
+        defaults = dict(zip(reversed([x.arg for x in a.args]), reversed(a.defaults)))
+        binding = dict(zip(params, ce.args))
+        for k in ce.keywords:
+            if k.arg not in params or k.arg in binding:
+                return None
+            binding[k.arg] = k.value
+        for prm in params:
+            if prm not in binding:
+                if prm not in defaults:
+                    return None
+                binding[prm] = defaults[prm]
+        return t, [(prm, binding[prm]) for prm in params], ys[0]
 
     def _lambda_host(self, lam: ast.Lambda) -> Optional[Scope]:
         for a in ancestors(lam):
@@ -740,10 +909,21 @@ class CFG:
     #    inline - or inlining a helper - must not change any verdict) ----------
     #  * nested helpers (closures): sync when called, async when awaited directly
     #  * with inline_methods: private, non-overridden methods of the same class
-    def _inline_target(self, e: ast.Call, awaited: bool):
+    def _inline_target(self, e: ast.Call, awaited: bool, _depth: int = 0, any_module_helper: bool = False):
         f = e.func
         if any(isinstance(a, ast.Starred) for a in e.args) or any(k.arg is None for k in e.keywords):
             return None
+        if isinstance(f, ast.Name) and _depth < 2:
+            # a single-assignment local bound to functools.partial(helper, a, ...): the call is helper(a, ..., *args)
+            from .match import closure_value
+            bs0 = self.cur_scope.binding_scope(f.id)
+            if bs0 is not None and bs0.kind == 'function' and f.id not in bs0.params:
+                v = closure_value(bs0, f.id)
+                if isinstance(v, ast.Call) and self.res.path(v.func) == 'functools.partial' and v.args \
+                        and not any(isinstance(a, ast.Starred) for a in v.args) and not any(k.arg is None for k in v.keywords):
+                    synth = ast.Call(func=v.args[0], args=list(v.args[1:]) + list(e.args), keywords=list(v.keywords) + list(e.keywords))
+                    ast.copy_location(synth, e)
+                    return self._inline_target(synth, awaited, _depth + 1, any_module_helper)
         t: Optional[Scope] = None
         skip_self = False
         if isinstance(f, ast.Name):
@@ -763,7 +943,7 @@ class CFG:
                 pnames = {x.arg for x in t0.node.args.args}
                 calls_param = any(isinstance(x, ast.Call) and isinstance(x.func, ast.Name) and x.func.id in pnames
                                   for x in own_nodes(t0.node))
-                if not calls_param:
+                if not calls_param and not any_module_helper and not self.inline_module_helpers:
                     return None
                 bs = None
                 t = t0
@@ -850,6 +1030,7 @@ class CFG:
         c.assign_targets = assign_targets
         c.assign_stmt = assign_stmt
         c.return_through = return_through
+        c.caller_scope = self.cur_scope
         c.callables = {prm: arg for prm, arg in binding
                        if isinstance(arg, (ast.Lambda, ast.Attribute)) or (isinstance(arg, ast.Name) and not isinstance(arg, ast.Constant))}
         self.ctx.append(c)
@@ -1418,12 +1599,15 @@ _cfg_cache: Dict[tuple, CFG] = {}
 
 
 def build(scope: Scope, program: Program, raise_model: Optional[RaiseModel] = None,
-          inline_methods: bool = False, inline_nested: bool = True, no_inline: Tuple[str, ...] = ()) -> CFG:
+          inline_methods: bool = False, inline_nested: bool = True, no_inline: Tuple[str, ...] = (),
+          expand_deferred: bool = False, inline_module_helpers: bool = False) -> CFG:
     if raise_model is None:
         raise_model = default_model(program)
-    key = (id(raise_model), scope.unit.rel, scope.qualname, inline_methods, inline_nested, tuple(no_inline))
+    key = (id(raise_model), scope.unit.rel, scope.qualname, inline_methods, inline_nested, tuple(no_inline), expand_deferred,
+           inline_module_helpers)
     if key not in _cfg_cache:
-        _cfg_cache[key] = CFG(scope, program, raise_model, inline_methods, inline_nested, tuple(no_inline))
+        _cfg_cache[key] = CFG(scope, program, raise_model, inline_methods, inline_nested, tuple(no_inline), expand_deferred,
+                              inline_module_helpers)
     return _cfg_cache[key]
 
 
